@@ -359,6 +359,80 @@ run_request (int idx)
 	pixman_image_unref (d.img);
 	free (s.bits); free (m.bits); free (d.bits);
     }
+    else if (r->kind == 'T')
+    {
+	/* T: kind dfmt dw dh seed   -- trapezoids on a private destination (kind 0: add_trapezoids on a8,
+	 * 1: composite_trapezoids OVER with a solid source, 2: composite_triangles ADD) */
+	int tk = (int)f[0], dw = (int)f[2], dh = (int)f[3], i;
+	pixman_format_code_t dfmt = (pixman_format_code_t)f[1];
+	img_t d;
+	pixman_trapezoid_t tr[3];
+	pixman_triangle_t tri[2];
+	vrng_seed (&rng, (uint64_t)f[4]);
+	make_bits (&d, dfmt, dw, dh, 0, &rng, 0);
+	for (i = 0; i < 3; i++)
+	{
+	    pixman_fixed_t x0 = (pixman_fixed_t)(vrng_below (&rng, dw * 65536 + 1)), x1 = (pixman_fixed_t)(vrng_below (&rng, dw * 65536 + 1));
+	    tr[i].top = (pixman_fixed_t)vrng_below (&rng, 65536 * 2);
+	    tr[i].bottom = tr[i].top + 1 + (pixman_fixed_t)vrng_below (&rng, dh * 65536);
+	    tr[i].left.p1.x = x0 < x1 ? x0 : x1; tr[i].left.p1.y = tr[i].top;
+	    tr[i].left.p2.x = tr[i].left.p1.x + (pixman_fixed_t)vrng_below (&rng, 131072) - 65536; tr[i].left.p2.y = tr[i].bottom;
+	    tr[i].right.p1.x = (x0 < x1 ? x1 : x0) + 1; tr[i].right.p1.y = tr[i].top;
+	    tr[i].right.p2.x = tr[i].right.p1.x + (pixman_fixed_t)vrng_below (&rng, 131072) - 65536; tr[i].right.p2.y = tr[i].bottom;
+	}
+	for (i = 0; i < 2; i++)
+	{
+	    tri[i].p1.x = (pixman_fixed_t)vrng_below (&rng, dw * 65536); tri[i].p1.y = (pixman_fixed_t)vrng_below (&rng, dh * 65536);
+	    tri[i].p2.x = (pixman_fixed_t)vrng_below (&rng, dw * 65536); tri[i].p2.y = (pixman_fixed_t)vrng_below (&rng, dh * 65536);
+	    tri[i].p3.x = (pixman_fixed_t)vrng_below (&rng, dw * 65536); tri[i].p3.y = (pixman_fixed_t)vrng_below (&rng, dh * 65536);
+	}
+	if (tk == 0)
+	    pixman_add_trapezoids (d.img, 0, 0, 3, tr);
+	else
+	{
+	    pixman_color_t c = { 0xc000, 0x4000, 0x8000, 0xd000 };
+	    pixman_image_t *sol = pixman_image_create_solid_fill (&c);
+	    if (tk == 1)
+		pixman_composite_trapezoids (PIXMAN_OP_OVER, sol, d.img, PIXMAN_a8, 0, 0, 0, 0, 3, tr);
+	    else
+		pixman_composite_triangles (PIXMAN_OP_ADD, sol, d.img, PIXMAN_a8, 0, 0, 0, 0, 2, tri);
+	    pixman_image_unref (sol);
+	}
+	fprintf (o, "{\"e\":\"Res\",\"tid\":%d,\"seq\":%d,\"req\":%d,\"kind\":\"C\",\"ret\":true", tid, seqno++, idx);
+	log_buffer (o, &d);
+	fputs ("}\n", o);
+	pixman_image_unref (d.img);
+	free (d.bits);
+    }
+    else if (r->kind == 'X')
+    {
+	/* X: seed n  -- region algebra on private regions; the result is logged as "bytes" (coordinates mod 256) */
+	pixman_region32_t a, b, c;
+	pixman_box32_t bx[12];
+	int n = (int)f[1], i, nr;
+	pixman_box32_t *rr;
+	vrng_seed (&rng, (uint64_t)f[0]);
+	if (n > 12) n = 12;
+	for (i = 0; i < n; i++)
+	{
+	    bx[i].x1 = (int)vrng_below (&rng, 40); bx[i].y1 = (int)vrng_below (&rng, 20);
+	    bx[i].x2 = bx[i].x1 + 1 + (int)vrng_below (&rng, 30); bx[i].y2 = bx[i].y1 + 1 + (int)vrng_below (&rng, 12);
+	}
+	pixman_region32_init_rects (&a, bx, n / 2);
+	pixman_region32_init_rects (&b, bx + n / 2, n - n / 2);
+	pixman_region32_init (&c);
+	pixman_region32_union (&c, &a, &b);
+	pixman_region32_subtract (&a, &c, &b);
+	pixman_region32_intersect (&c, &c, &b);
+	pixman_region32_union (&c, &c, &a);
+	pixman_region32_translate (&c, 3, -2);
+	rr = pixman_region32_rectangles (&c, &nr);
+	fprintf (o, "{\"e\":\"Res\",\"tid\":%d,\"seq\":%d,\"req\":%d,\"kind\":\"C\",\"ret\":true,\"bytes\":[%d", tid, seqno++, idx, nr & 255);
+	for (i = 0; i < nr; i++)
+	    fprintf (o, ",%d,%d,%d,%d", rr[i].x1 & 255, rr[i].y1 & 255, rr[i].x2 & 255, rr[i].y2 & 255);
+	fputs ("]}\n", o);
+	pixman_region32_fini (&a); pixman_region32_fini (&b); pixman_region32_fini (&c);
+    }
     else if (r->kind == 'F' || r->kind == 'B')
     {
 	/* F: bpp stride_words rows x y w h value seed      B: bpp sstride dstride rows sx sy dx dy w h seed */
